@@ -417,7 +417,8 @@ def run_model(case):
     elif kind == 'twospell':
         # one formula reaching the same rectangle through two different spellings: one node, both uses served
         sp = ["%sA1:B2" % P, "%s$A$1:$B$2" % P, "%sA1:%sB2" % (P, P), "%sA1:A2:%sB2" % (P, P), "%sa1:b2" % P, "%sA1:B1:%sB2" % (P, P), "%sB2:%sA1" % (P, P)]
-        base = {P + 'A1': 1, P + 'A2': 20, P + 'B1': 300, P + 'B2': 4000}
+        sp += ["%sA1:'[b.xlsx]'!LASTC" % P, "'[b.xlsx]'!FIRSTC:%sB2" % P, "'[b.xlsx]'!firstc:'[b.xlsx]'!Lastc", "%s$A$1:'[b.xlsx]'!LASTC" % P]      # an end point given by a defined name
+        base = {P + 'A1': 1, P + 'A2': 20, P + 'B1': 300, P + 'B2': 4000, "'[b.xlsx]'!LASTC": '=%sB2' % P, "'[b.xlsx]'!FIRSTC": '=%sA1' % P}
         for x in sp:
             for y in sp:
                 n += 1
